@@ -16,7 +16,7 @@ using namespace simk;
 static inline bool libctx(Thread *t) { return t && t->api_depth > 0 && !t->in_callback; }
 static inline uint8_t owner_now(Thread *t) { return libctx(t) ? OWN_LIB : OWN_USER; }
 
-#define FAIL(kind, a, b, c, e, fl) do { errno = (e); K->logrec(kind, a, b, c, -1, e, fl); return -1; } while (0)
+#define FAIL(kind, a, b, c, e, fl) do { if ((e) == EMFILE && !((fl) & RF_INJECTED) && K->cur) K->natural_emfile_ops.insert(K->cur->op); errno = (e); K->logrec(kind, a, b, c, -1, e, fl); return -1; } while (0)
 
 extern "C" {
 
